@@ -3,11 +3,12 @@
 package ecmascript
 
 var verifHarnesses = map[string]func(){
-	"VerifC08Exec": VerifC08Exec,
-	"VerifC08Step": VerifC08Step,
-	"VerifC10Caller": VerifC10Caller,
-	"VerifC09": VerifC09,
-	"VerifC11": VerifC11,
-	"VerifC11Step": VerifC11Step,
+	"VerifC08Exec":      VerifC08Exec,
+	"VerifC08Step":      VerifC08Step,
+	"VerifC10Caller":    VerifC10Caller,
+	"VerifC09":          VerifC09,
+	"VerifC09Error":     VerifC09Error,
+	"VerifC11":          VerifC11,
+	"VerifC11Step":      VerifC11Step,
 	"VerifC10Isolation": VerifC10Isolation,
 }
